@@ -1,0 +1,75 @@
+//go:build verif
+
+// Package verifhook contains instrumentation points for external verification tooling.
+// With the build tag `verif`, Order counts its invocations per site and, if a
+// perturbation seed is set (env VERIF_PERTURB or SetSeed), permutes the slice with a
+// seeded PRNG. The slices passed in were filled by ranging over a Go map, so every
+// permutation is an order the Go runtime may legally have produced.
+package verifhook
+
+import (
+	"hash/fnv"
+	"math/rand"
+	"os"
+	"strconv"
+	"sync"
+)
+
+var (
+	mu      sync.Mutex
+	seed    uint64
+	enabled bool
+	calls   = map[string]int{} // per site: number of calls with len >= 2
+	counter uint64
+)
+
+func init() {
+	if s := os.Getenv("VERIF_PERTURB"); s != "" {
+		if v, err := strconv.ParseUint(s, 10, 64); err == nil {
+			seed, enabled = v, true
+		}
+	}
+}
+
+// SetSeed enables perturbation with the given seed and resets the call counter.
+func SetSeed(s uint64) {
+	mu.Lock()
+	defer mu.Unlock()
+	seed, enabled, counter = s, true, 0
+}
+
+// Disable turns perturbation off again.
+func Disable() {
+	mu.Lock()
+	defer mu.Unlock()
+	enabled = false
+}
+
+// Calls returns a copy of the per-site call counters (calls with at least two elements).
+func Calls() map[string]int {
+	mu.Lock()
+	defer mu.Unlock()
+	out := make(map[string]int, len(calls))
+	for k, v := range calls {
+		out[k] = v
+	}
+	return out
+}
+
+func Order[T any](site string, s []T) {
+	if len(s) < 2 {
+		return
+	}
+	mu.Lock()
+	calls[site]++
+	counter++
+	en, sd, cnt := enabled, seed, counter
+	mu.Unlock()
+	if !en {
+		return
+	}
+	h := fnv.New64a()
+	h.Write([]byte(site))
+	r := rand.New(rand.NewSource(int64(sd ^ h.Sum64() ^ (cnt * 0x9e3779b97f4a7c15))))
+	r.Shuffle(len(s), func(i, j int) { s[i], s[j] = s[j], s[i] })
+}
